@@ -9,8 +9,8 @@ From FA.Gen Require Import Tables.
 From FA.Model Require Import ExtCalls.
 From FA.Proofs Require Import Refine ExtCallsProofs ExtCallsSem.
 
-(* the pass computes exactly the relation "every [v.op(args…)] with [op] in the list becomes
-   [op(v', args'…)] (no keywords); every other node - all node classes - is rebuilt unchanged
+(* the pass computes exactly the relation "every [v.op(args…, kw…)] with [op] in the list becomes
+   [op(v', args'…, kw'…)]; every other node - all node classes - is rebuilt unchanged
    around its related children" *)
 Theorem ext_exact : forall e e', ext e = e' <-> ext_spec ext_default_ops e e'.
 Proof. exact (ExtCallsProofs.ext_exact ext_default_ops). Qed.
@@ -103,10 +103,11 @@ Example ext_selective :
          [Call (Name "First") [Name "t"] [] []].
 Proof. vm_compute. reflexivity. Qed.
 
-(* observation (not part of the property, which speaks of [seq.Op(args…)]): keywords of a rewritten
-   method call are dropped - this is why [ext_sem] carries the hypothesis [ops_kw_free] *)
-Example ext_drops_keywords :
-  ext (Call (Attr (Name "s") "Select") [Name "f"] [Some "k"] [Name "c"])
-  = Call (Name "Select") [Name "s"; Name "f"] [] []
+(* keywords of a rewritten method call stay with the call, their values rewritten too (F39: they used to be
+   dropped silently); [ext_sem] still carries [ops_kw_free] because the reference semantics hands the two
+   keyword forms to different backend hooks *)
+Example ext_keeps_keywords :
+  ext (Call (Attr (Name "s") "Select") [Name "f"] [Some "k"] [Call (Attr (Name "t") "Count") [] [] []])
+  = Call (Name "Select") [Name "s"; Name "f"] [Some "k"] [Call (Name "Count") [Name "t"] [] []]
   /\ ops_kw_free ext_default_ops (Call (Attr (Name "s") "Select") [Name "f"] [Some "k"] [Name "c"]) = false.
 Proof. split; vm_compute; reflexivity. Qed.
